@@ -332,3 +332,20 @@ pub fn replay(_ctx: &mut Ctx, ext: &str, bytes: &[u8]) -> Result<Option<String>,
 pub fn genline_pub(t: &mut Tape, clock: &mut i64) -> String {
     genline(t, clock)
 }
+
+/// Text-level entry of the `grammar` fuzz target: arbitrary text as the body of [HitObjects].
+/// Ok(false) = outside the line-level domain (a line would be taken for a section header or is framed
+/// differently than this module assumes - framing is C05's business).
+pub fn fuzz_text(text: &str) -> Result<bool, Fail> {
+    use crate::refmodel::framing::frame;
+    use rosu_map::section::Section;
+    let lines: Vec<String> = text.split('\n').map(|l| l.to_string()).collect();
+    let file = file_of(&lines);
+    let fr = frame(&file);
+    let expect: Vec<&str> = lines.iter().map(|l| l.trim_end()).filter(|tl| !tl.is_empty() && !tl.trim_start().starts_with("//")).collect();
+    let same = fr.version == 14 && fr.trace.len() == expect.len() && fr.trace.iter().zip(&expect).all(|((s, l), e)| *s == Section::HitObjects && l == e);
+    if !same {
+        return Ok(false);
+    }
+    evaluate(&lines).map(|_| true).map_err(|m| Fail::new(m, "osu", file.into_bytes()))
+}
